@@ -31,7 +31,10 @@ theorem C16_semantic (a b : Ty) (h : compat a b = true) (hc : Clean a) : ∀ v, 
     PARTIAL: the converse is not proved for generics.  With unions below a generic it is false of every syntactic rule that
     obeys the statement's "a union target needs one" (witness below: every value of `tuple[int | str]` is a value of
     `tuple[int] | tuple[str]`); for union-free generics it is expected to hold (the harness' reference relation agrees on all
-    generated pairs) but needs a witness value per annotation and is not carried by a theorem. -/
+    generated pairs) but needs a witness value per annotation and is not carried by a theorem.
+    EXTENSION (round 2): that missing part is now proved -- `C16_semantic_complete_generics` / `C16_semantic_iff_generics`
+    (`Props/C16Sem.lean`) carry the converse for covariant generics of any depth without unions below generics; this theorem is
+    kept as the special case. -/
 theorem C16_semantic_complete_partial (a b : Ty) (ha : Flat a = true) (hb : Flat b = true) (h : ∀ v, HasTy a v → HasTy b v) :
     compat a b = true := flat_complete a b ha hb h
 
